@@ -898,13 +898,20 @@ func (c *hCtx) runSeqCheck(name string, sc seqCheck) {
 		}
 	}
 	wrapN := 8 * 65600 // more than 2^16 equal bytes / blocks: a narrowed counter type wraps
-	if strings.HasSuffix(name, "-bytes") || name == "poker" {
+	if name != "dft" && name != "lincomp" && name != "rank" {
 		sizes = append(sizes, wrapN)
 	}
 	for _, n := range sizes {
 		fams := famSeqs(n, c.rng, nrand)
 		if n == wrapN {
-			fams = fams[:2] // zeros, ones
+			// zeros, ones and one balanced random sequence: counters, products of counts and distances above 2^16 / 2^31
+			var pick []hSeq
+			for _, f := range fams {
+				if f.Name == "zeros" || f.Name == "ones" || f.Name == "random#0" {
+					pick = append(pick, f)
+				}
+			}
+			fams = pick
 		}
 		for _, sq := range fams {
 			for _, p := range sc.params {
@@ -916,6 +923,9 @@ func (c *hCtx) runSeqCheck(name string, sc seqCheck) {
 				}
 				if name == "blockfreq" && p > n {
 					continue // block length above the sequence length: not an admissible parameter (the function refuses it)
+				}
+				if name == "blockfreq" && n == wrapN && p == 1000 {
+					p = 140000 // blocks holding more than 2^16 ones
 				}
 				in := map[string]interface{}{"family": sq.Name, "n": n, "param": p, "seed": c.req.Seed, "bits": bitsToStr(sq.Bits)}
 				before := len(c.resp.Findings)
